@@ -152,6 +152,23 @@ def check(rep, c, cfg):
     for p in callers_reached:
         r.instance("reader:" + p, "", "reads the limit predicate")
 
+    # the limit itself is fixed per parse: the process-wide setting is read only when a tracker is built
+    glob_reads = []
+    for b in c.bodies:
+        for n in walk(b["body"]):
+            if kind(n) == "Path" and n.get("res") == "def" and n.get("path") == "pest::parser_state::CALL_LIMIT":
+                glob_reads.append((b, n))
+    for (b, n) in glob_reads:
+        is_ctor = b["path"] in ctors
+        is_setter = b.get("vis") == "pub" and b["dk"] == "Fn" and not any(
+            kind(x) == "MethodCall" and x["m"] == "load" for x in walk(b["body"]))
+        r.instance("global:%s" % b["path"], where(n), "constructor" if is_ctor else ("setter" if is_setter else "other"))
+        if not is_ctor and not is_setter:
+            r.violation("global:%s" % b["path"], where(n),
+                        "the process-wide call limit is read in %s, i.e. during a parse: if another thread changes or "
+                        "clears the limit after a call was refused, `reached` turns false again and the absorbed "
+                        "refusal is returned as a success (the tracker must copy the limit when it is created)" % b["name"])
+
     # ---------------------------------------------------------------- EXITS
     r2 = rep.rule("C12.EXITS" + sfx, 2,
                   "in pest::state every path from the return of the user closure to a result consults the "
